@@ -3,7 +3,7 @@ from __future__ import annotations
 import ast
 import z3
 from . import sorts as S
-from .sorts import VNum, VBool, VStr, VSet, VSeq, VOpt, VDict, VTup, VRec, VObj, VFunc, VNone, NONE, VPyList, VTBDict, VBDict
+from .sorts import VNum, VBool, VStr, VSet, VSeq, VOpt, VDict, VTup, VRec, VObj, VFunc, VNone, NONE, VPyList, VTBDict, VBDict, VLDict
 from .core import OutOfReach, State, mk_int, to_real, Exec, UNBOUND, VOpaque, Raise, is_concrete_int, concrete_int
 from .loops import eval_clause, eval_clause_value
 
@@ -295,6 +295,8 @@ def _z3sort(s):
 def flat_sorts(s):
     if isinstance(s, S.Opt):
         return [z3.BoolSort()] + flat_sorts(s.inner)
+    if isinstance(s, S.LDictSort):
+        return [S.CSetS, S.LMapS]
     if isinstance(s, S.Dict):
         return [S.CSetS, S.RMapS]
     if isinstance(s, S.TBDict):
@@ -320,6 +322,8 @@ def flatten(ex, v, s):
         dflt = flatten(ex, default_value(s.inner), s.inner)
         return [v.isnone] + [z3.If(v.isnone, d, t) if not z3.is_true(v.isnone) else d for t, d in zip(inner, dflt)] \
             if not z3.is_false(z3.simplify(v.isnone)) else [v.isnone] + inner
+    if isinstance(s, S.LDictSort):
+        return [v.keys, v.vals]
     if isinstance(s, S.Dict):
         if isinstance(v, VOpt):
             v = v.val
@@ -379,6 +383,9 @@ def call_method(ex, base, attr, node, st):
         if info is None or fnode is None:
             raise OutOfReach(f"method {cname}.{attr} has no contract")
         return apply_contract(ex, info, fnode, [base] + args, kw, st, node)
+    if isinstance(base, VLDict):
+        if attr == "keys" and not args:
+            return VSet(base.keys)
     if isinstance(base, VDict):
         if attr == "keys" and not args:
             return VSet(base.keys)
@@ -579,6 +586,19 @@ def call_stmt(ex: Exec, node: ast.Call, st: State, target):
     """returns outcomes; on 'fall' the result is stored in st.env[target] when target is given"""
     f = node.func
     # mutators on locals / fields
+    if isinstance(f, ast.Attribute) and f.attr == "append" and isinstance(f.value, ast.Subscript) and isinstance(f.value.value, ast.Name) \
+            and isinstance(st.env.get(f.value.value.id), VLDict) and len(node.args) == 1:
+        # d[k].append(b) on a dict of ballot lists: KeyError unless k is a key; the list stored under k grows by b
+        d = st.env[f.value.value.id]
+        k = ex.eval(f.value.slice, st)
+        b = ex.eval(node.args[0], st)
+        if not isinstance(k, VStr) or not (isinstance(b, VRec) and b.cls == "Ballot"):
+            raise OutOfReach("append into a dict of lists: key / element sorts")
+        ex.need(st, d.keys[k.term], "KeyError", node, "dict key")
+        st.env[f.value.value.id] = VLDict(d.keys, z3.Store(d.vals, k.term, z3.Concat(d.vals[k.term], z3.Unit(b.term))))
+        if target:
+            st.env[target] = NONE
+        return [("fall", st, None)]
     if isinstance(f, ast.Attribute) and f.attr in MUTATORS and isinstance(f.value, (ast.Name, ast.Attribute)):
         base = ex.eval(f.value, st)
         if isinstance(base, (VSeq, VTup, VPyList)):
